@@ -1,9 +1,9 @@
 SPECIFICATION Spec
 CONSTANTS
-  NLines = 3
-  Welcome = 1
+  NLines = 4
+  Welcome = 2
   FgH = {"f1","f2"}
-  BgH = {"b1","b2"}
+  BgH = {"b1"}
   Outcomes = {"ret","panic","block"}
   BgBeforeInt = FALSE
   LoopLeavesEarly = FALSE
